@@ -21,6 +21,10 @@ type Task struct {
 	f    func()
 }
 
+// Spawn, if set, takes over every rewritten `go` statement (e.g. a cooperative scheduler that
+// runs tasks as baton-holding goroutines); the run queue below is then unused.
+var Spawn func(f func())
+
 // RecordSites makes Go record the spawning function of every task (costs a stack walk per task).
 var RecordSites = false
 
@@ -51,6 +55,10 @@ func SetContext(c string) string {
 
 // Go queues f. It is what rewritten `go` statements call.
 func Go(f func()) {
+	if Spawn != nil {
+		Spawn(f)
+		return
+	}
 	site := ""
 	if !RecordSites {
 	} else if pc, _, _, ok := runtime.Caller(1); ok {
